@@ -49,6 +49,9 @@ func unrle(s string) []byte {
 
 func listing(dir string) string {
 	ents, err := os.ReadDir(dir)
+	if os.IsNotExist(err) {
+		return "" // nothing written yet: the rotator creates the directory with the first write
+	}
 	if err != nil {
 		return "READDIR-ERROR"
 	}
